@@ -13,7 +13,7 @@
    Executable definitions only; no proofs in this file. *)
 From Coq Require Import ZArith List Bool.
 From RecordUpdate Require Import RecordSet.
-From V Require Import Model.ZMap Model.Quorum Model.Median.
+From V Require Import Model.ZMap Model.Quorum Model.Median Model.Voting.
 Import ListNotations RecordSetNotations.
 Open Scope Z_scope.
 
@@ -571,63 +571,24 @@ Definition divide_rounds (st : hg) : hg := fold_left divide_one st.(undetermined
 Definition coin_of (st : hg) (y : Z) : bool :=
   match get_event st y with Some e => e_coin e.(ev_e) | None => true end.
 
-(* votes of the witnesses about x: association list y -> vote *)
-Definition vote_of (votes : list (Z * bool)) (w : Z) : bool :=
-  match aget w votes with Some b => b | None => false end.
+(* instantiation of the abstract voting loop (Model/Voting.v) with store lookups *)
+Definition vparams_of (st : hg) (x : Z) : vparams :=
+  mkVP (fun y => see st y x)
+       (fun j => match get_round st (j - 1) with Some ri => Some (witnesses ri) | None => None end)
+       (fun j y w => match get_peerset st (j - 1) with
+                     | Some pps => strongly_see st y w pps
+                     | None => None end)
+       (fun j => match get_peerset st j with Some ps => Some (super_majority ps) | None => None end)
+       (coin_of st).
 
-(* the y loop of one round j; returns (votes, Some fame if decided) ; None on error *)
-Fixpoint fame_round_j (st : hg) (x r j : Z) (ys : list Z) (votes : list (Z * bool))
-  : option (list (Z * bool) * option bool) :=
-  match ys with
-  | [] => Some (votes, None)
-  | y :: rest =>
-    let diff := j - r in
-    if diff =? 1 then
-      match see st y x with
-      | None => None
-      | Some b => fame_round_j st x r j rest (aset y b votes)
-      end
-    else
-      match get_round st (j - 1), get_peerset st (j - 1), get_peerset st j with
-      | Some pri, Some pps, Some jps =>
-        let ssw := fold_left (fun (acc : option (list Z)) w =>
-                     match acc, strongly_see st y w pps with
-                     | Some l, Some b => Some (if b then l ++ [w] else l)
-                     | _, _ => None
-                     end) (witnesses pri) (Some []) in
-        match ssw with
-        | None => None
-        | Some ssw =>
-          let yays := Z.of_nat (length (filter (fun w => vote_of votes w) ssw)) in
-          let nays := Z.of_nat (length ssw) - yays in
-          let v := nays <=? yays in
-          let t := if v then yays else nays in
-          if 0 <? diff mod 4 then
-            if super_majority jps <=? t then Some (aset y v votes, Some v)
-            else fame_round_j st x r j rest (aset y v votes)
-          else
-            if super_majority jps <=? t then fame_round_j st x r j rest (aset y v votes)
-            else fame_round_j st x r j rest (aset y (coin_of st y) votes)
-        end
-      | _, _, _ => None
-      end
+Definition round_witnesses (st : hg) (j : Z) : option (list Z) :=
+  match get_round st j, get_peerset st j with
+  | Some jri, Some _ => Some (witnesses jri)
+  | _, _ => None
   end.
 
-(* VOTE_LOOP over j = r+1 .. LastRound *)
-Fixpoint fame_loop (st : hg) (x r : Z) (js : list Z) (votes : list (Z * bool)) : option (option bool) :=
-  match js with
-  | [] => Some None
-  | j :: rest =>
-    match get_round st j, get_peerset st j with
-    | Some jri, Some _ =>
-      match fame_round_j st x r j (witnesses jri) votes with
-      | None => None
-      | Some (_, Some v) => Some (Some v)
-      | Some (votes', None) => fame_loop st x r rest votes'
-      end
-    | _, _ => None
-    end
-  end.
+Definition fame_of (st : hg) (x r : Z) : option (option bool) :=
+  fame_loop (vparams_of st x) (round_witnesses st) r (zrange (r + 1) st.(last_round)) [].
 
 Definition decide_fame_round (acc : hg * list Z) (pr : Z * bool) : hg * list Z :=
   let '(s, decided) := acc in
@@ -640,7 +601,7 @@ Definition decide_fame_round (acc : hg * list Z) (pr : Z * bool) : hg * list Z :
                  | None => None
                  | Some ri' =>
                    if is_decided ri' x then Some ri'
-                   else match fame_loop s x r (zrange (r + 1) s.(last_round)) [] with
+                   else match fame_of s x r with
                         | None => None
                         | Some None => Some ri'
                         | Some (Some v) => Some (set_fame ri' x v)
